@@ -75,7 +75,7 @@ func numberFormatRule(p *core.Program, r *core.Report, rule string, entry *ssa.F
 	}
 	fmtc, ok1 := eng.ConstInt(args[off+1])
 	bits, ok2 := eng.ConstInt(args[off+3])
-	_, path, isField := fieldLoad(args[off+2])
+	_, path, isField := fieldLoad(eng.StripConv(args[off+2]))
 	okArgs := ok1 && fmtc == 'f' && ok2 && bits == 64 && isField && path == "."+digitsField
 	r.Check(okArgs, rule, key+"/format-args", p.Pos(call.Pos()), true, "strconv."+eng.CalleeObj(call).Name()+"(x, 'f', "+digitsField+", 64)",
 		fmt.Sprintf("the number is formatted with (%v, %s, %v) instead of ('f', the encoder's %s, 64): 'f' with -1 is the shortest decimal that round-trips; another verb or bit size loses bits or emits exponents", fmtVerb(fmtc, ok1), args[off+2], bits, digitsField))
